@@ -19,7 +19,7 @@ DangerousMods == {"os", "posix", "nt", "subprocess", "sys", "socket", "shutil", 
                   "os.path", "urllib.request", "urllib.parse", "dill._dill", "torch.hub.x", "code.x"}
 BenignStdMods == {"collections", "datetime", "fractions", "decimal", "copyreg", "_codecs", "array",
                   "uuid", "pathlib", "functools", "string", "types", "enum", "re", "operator", "time", "itertools",
-                  "marshal", "_io"}
+                  "marshal", "_io", "importlib", "gzip"}
 NonStdMods    == {"verif_sink", "verif_nat", "numpy", "M1", "M2", "sklearn.tree", "not_a_real_module",
                   "copy_reg", "pkg.sub", "torch", "torch.storage", "torch.serialization", "torch.jit", "operator.impl",
                   "numpy.testing._private.utils", "numpy.testing._private.utils.x", "numpy.core.multiarray"}
